@@ -152,9 +152,22 @@ func c19RunAddrInner(expr string) (string, string) {
 		}
 		c19AddrMemo[h] = true
 	}
-	addrs, err := a.addrs()
-	if err != nil {
-		return "addrs() error: " + err.Error(), "valid"
+	// the private expansion into socket addresses, whatever its exact signature (asserted through
+	// interfaces so that a refactor of the private method does not break the harness build)
+	var addrs []net.Addr
+	switch f := any(a).(type) {
+	case interface{ addrs() ([]net.Addr, error) }:
+		if addrs, err = f.addrs(); err != nil {
+			return "addrs() error: " + err.Error(), "valid"
+		}
+	case interface{ addrs() []net.Addr }:
+		addrs = f.addrs()
+	default:
+		c19AddrsUnavailable++
+		if silent {
+			return "", "silent:accepted"
+		}
+		return "", fmt.Sprintf("valid:%d", len(want))
 	}
 	if len(addrs) != len(want) {
 		return fmt.Sprintf("%q: addrs() has %d entries for %d ports", expr, len(addrs), len(want)), "valid"
@@ -175,6 +188,9 @@ func c19RunAddrInner(expr string) (string, string) {
 var (
 	c19AddrMemo     map[[32]byte]bool
 	c19AddrMemoHits int64
+	// c19AddrsUnavailable: cases in which the private addrs() expansion could not be called (method
+	// gone or with another signature): only the exported Ports list was compared
+	c19AddrsUnavailable int64
 )
 
 // ---- hop interval rule ----------------------------------------------------------------------
@@ -343,6 +359,10 @@ func c19EnumerateAddr(sh *evidence.Shard) {
 	}
 	if c19AddrMemo != nil {
 		pa.Count("wide_addrs_expansions_memoised", c19AddrMemoHits)
+		if c19AddrsUnavailable > 0 {
+			pa.Count("cases_without_private_addrs_expansion", c19AddrsUnavailable)
+			pa.Note("the private addrs() method is not callable on this tree (gone or another signature): the exported Ports list was compared with the reference, the socket-address expansion was not")
+		}
 		pa.Note("quick tier: port lists longer than 4096 are expanded by addrs() once per distinct list (the list itself is compared with the reference in every case); the thorough tier expands every case")
 	}
 }
